@@ -379,11 +379,25 @@ func (cfg *Config) perElemOps(pe *syntax.ParamExp, elems []string) ([]string, er
 
 // replaceElems applies a ${var/pattern/repl} replacement to each element.
 func (cfg *Config) replaceElems(repl *syntax.Replace, elems []string) ([]string, error) {
-	orig, err := Pattern(cfg, repl.Orig)
+	// ${var/#pattern/repl} and ${var/%pattern/repl} only match at the start
+	// and at the end of the value, respectively.
+	origWord := repl.Orig
+	var anchor byte
+	if !repl.All && origWord != nil && len(origWord.Parts) > 0 {
+		if lit, ok := origWord.Parts[0].(*syntax.Lit); ok && lit.Value != "" && (lit.Value[0] == '#' || lit.Value[0] == '%') {
+			anchor = lit.Value[0]
+			lit2 := *lit
+			lit2.Value = lit.Value[1:]
+			word2 := *origWord
+			word2.Parts = append([]syntax.WordPart{&lit2}, origWord.Parts[1:]...)
+			origWord = &word2
+		}
+	}
+	orig, err := Pattern(cfg, origWord)
 	if err != nil {
 		return nil, err
 	}
-	if orig == "" {
+	if orig == "" && anchor == 0 {
 		return elems, nil // nothing to replace
 	}
 	with, err := Literal(cfg, repl.With)
@@ -396,7 +410,19 @@ func (cfg *Config) replaceElems(repl *syntax.Replace, elems []string) ([]string,
 	}
 	out := make([]string, len(elems))
 	for i, elem := range elems {
-		locs := findAllIndex(orig, elem, n)
+		var locs [][]int
+		switch anchor {
+		case '#':
+			if rest := removePattern(elem, orig, false, false); orig == "" || len(rest) < len(elem) {
+				locs = [][]int{{0, len(elem) - len(rest)}}
+			}
+		case '%':
+			if rest := removePattern(elem, orig, true, false); orig == "" || len(rest) < len(elem) {
+				locs = [][]int{{len(rest), len(elem)}}
+			}
+		default:
+			locs = findAllIndex(orig, elem, n)
+		}
 		sb := cfg.strBuilder()
 		last := 0
 		for _, loc := range locs {
